@@ -471,9 +471,19 @@ func (c *Ctx) c15Assemble(stage0 *ssa.Function) {
 			if !ok || call.Call.StaticCallee() == nil {
 				continue
 			}
-			switch call.Call.StaticCallee().String() {
-			case "sort.Ints", "slices.Sort[[]int int]", "slices.Sort":
+			switch cn := call.Call.StaticCallee().String(); {
+			case cn == "sort.Ints" || cn == "slices.Sort" || strings.HasPrefix(cn, "slices.Sort["):
 				sorted, sortCall = varIdent(call.Call.Args[0]), call
+			case cn == "slices.Sorted" || strings.HasPrefix(cn, "slices.Sorted["):
+				// keys := slices.Sorted(maps.Keys(m)): the result is the sorted list
+				sorted, sortCall = ssa.Value(call), call
+				for _, ref := range *call.Referrers() {
+					if st, isSt := ref.(*ssa.Store); isSt && st.Val == ssa.Value(call) {
+						if al, isAl := st.Addr.(*ssa.Alloc); isAl {
+							sorted = al
+						}
+					}
+				}
 			}
 		}
 	}
